@@ -70,6 +70,17 @@ def oracle(case, rec):
         sp = emd.spectra.hilberthuang(f0, a0, edges.copy(), mode=mode, return_sparse=True)
     except Exception as e:
         raise Violation('C10/raises/' + type(e).__name__, repr(e))
+    spd_before = np.asarray(sp.toarray()).copy()
+    dense_before = dense.copy()
+    if a0.flags.writeable and f0.flags.writeable:
+        keep_a, keep_f = a0.copy(), f0.copy()
+        a0 *= 3.0           # the caller goes on using its own arrays ...
+        f0 += 1.0
+        if not (np.array_equal(np.asarray(sp.toarray()), spd_before) and np.array_equal(dense, dense_before)):
+            raise Violation('C10/returned-spectrum-aliases-input/%s' % mode,
+                            'the spectrum returned earlier changed when the caller modified its amplitude / frequency array')
+        a0[...] = keep_a
+        f0[...] = keep_f
     if not (np.array_equal(fin, f0) and np.array_equal(a, a0)):
         raise Violation('C10/input-modified', 'frequency or amplitude array changed by hilberthuang_1d / hilberthuang')
     spd = np.asarray(sp.toarray())
